@@ -27,6 +27,9 @@ type Opt struct {
 	ExtraPoll int    // polls after the end of the stream
 	MaxRows   int    // safety cap on rows (0: 100000)
 	KeepRaw   bool   // keep raw columns
+	// AfterPoll, when set, runs between a poll that returned rows and the
+	// reading of those rows (a caller that receives rows and looks at them later)
+	AfterPoll func()
 }
 
 // Outcome of one execution.
@@ -165,6 +168,9 @@ func Drain(plan kvql.FinalPlan, opt Opt, out *Outcome) {
 				}
 				return
 			}
+			if opt.AfterPoll != nil {
+				opt.AfterPoll()
+			}
 			add(cols)
 			if len(out.Rows) > maxRows {
 				out.Capped = true
@@ -186,6 +192,9 @@ func Drain(plan kvql.FinalPlan, opt Opt, out *Outcome) {
 				continue
 			}
 			return
+		}
+		if opt.AfterPoll != nil {
+			opt.AfterPoll()
 		}
 		for _, r := range rows {
 			add(r)
